@@ -44,4 +44,30 @@ theorem responder_keys (P : Prims) (K : Kdf) (magic : Nat) (rnd : List UInt8) (g
   have hd : (ellA ++ tail).drop 64 = tail := by rw [← hA, List.drop_left]
   rw [ht, hd, if_neg hnet, hs]
 
+theorem v1Mismatch_all (v1 inp : List UInt8) : ∀ (fuel i : Nat),
+    (∀ j, i ≤ j → j < i + fuel → j < inp.length ∧ inp.getD j 0 = v1.getD j 0) →
+    v1Mismatch v1 inp fuel i = .error .useV1
+  | 0, _, _ => rfl
+  | fuel + 1, i, h => by
+    unfold v1Mismatch
+    obtain ⟨h1, h2⟩ := h i (Nat.le_refl _) (by omega)
+    rw [if_neg (by omega), if_neg (fun hne => hne h2)]
+    exact v1Mismatch_all v1 inp fuel (i + 1) (fun j hj1 hj2 => h j (by omega) (by omega))
+
+/-- a stream that starts with the 16-byte v1 version-message prefix of this network makes the
+responder answer ErrUseV1Protocol without writing a single byte -/
+theorem responder_v1 (P : Prims) (K : Kdf) (magic : Nat) (rnd : List UInt8) (gLen : Nat)
+    (decoys : List Nat) (tail : List UInt8) :
+    (responder P K magic rnd gLen decoys (v1Prefix magic ++ tail)).status = .useV1 ∧
+    (responder P K magic rnd gLen decoys (v1Prefix magic ++ tail)).written = [] := by
+  have hl : (v1Prefix magic).length = 16 := by
+    simp [v1Prefix, natLE_length]
+  have h := v1Mismatch_all (v1Prefix magic) (v1Prefix magic ++ tail) 16 0 (by
+    intro j _ hj
+    refine ⟨by simp only [List.length_append, hl]; omega, ?_⟩
+    simp only [List.getD_eq_getElem?_getD]
+    rw [List.getElem?_append_left (by omega)])
+  unfold responder
+  refine ⟨?_, ?_⟩ <;> simp only [h]
+
 end BV.C19.Lemmas
